@@ -228,6 +228,7 @@ func mkRegion(s snap) *core.RegionInfo {
 // ---- the real cluster + observation ----
 
 type sys struct {
+	bc     *core.BasicCluster
 	rc     *cluster.RaftCluster
 	st     *core.Storage
 	cancel context.CancelFunc
@@ -239,8 +240,9 @@ func newSys() *sys {
 	ctx, cancel := context.WithCancel(context.Background())
 	st := core.NewStorage(kv.NewMemoryKV())
 	rc := cluster.NewRaftCluster(ctx, "/pd/7/raft", 7, nil, nil, nil)
-	rc.InitCluster(mockid.NewIDAllocator(), config.NewTestOptions(), st, core.NewBasicCluster())
-	return &sys{rc: rc, st: st, cancel: cancel, maxEp: map[uint64][3]uint64{}, keyVer: map[string]uint64{}}
+	bc := core.NewBasicCluster()
+	rc.InitCluster(mockid.NewIDAllocator(), config.NewTestOptions(), st, bc)
+	return &sys{rc: rc, st: st, bc: bc, cancel: cancel, maxEp: map[uint64][3]uint64{}, keyVer: map[string]uint64{}}
 }
 
 func (s *sys) close() { s.cancel() }
@@ -288,7 +290,20 @@ var probeKeys = []string{"", "0", "a", "a5", "b", "b5", "c", "c5"}
 
 // observe evaluates the state invariants and updates the monotonicity trackers.
 func (s *sys) observe(when string, sequential bool) *hist.Violation {
-	l := s.served()
+	return s.observeList(s.served(), when, sequential)
+}
+
+// sampleUnlocked is the observer of the concurrent scenarios (sched.OnPoint): it reads the
+// region cache without its lock - only one harness thread runs at a time and a thread is
+// never suspended in the middle of a cache update - at every scheduling point, so that no
+// state of the cache goes unobserved (a key that is not served for a while starts afresh).
+func (s *sys) sampleUnlocked(when string) *hist.Violation {
+	l := s.bc.Regions.GetRegions()
+	sort.Slice(l, func(i, j int) bool { return string(l[i].GetStartKey()) < string(l[j].GetStartKey()) })
+	return s.observeList(l, when, false)
+}
+
+func (s *sys) observeList(l []*core.RegionInfo, when string, sequential bool) *hist.Violation {
 	for i := 0; i+1 < len(l); i++ {
 		if overlapR(l[i], l[i+1]) {
 			return &hist.Violation{Key: "served-overlap", Msg: fmt.Sprintf("%s: served regions overlap: %s and %s", when, rstr(l[i]), rstr(l[i+1]))}
@@ -421,15 +436,20 @@ func (s *sys) deliver(sn snap, sequential bool) *hist.Violation {
 	return s.observe("after "+sn.String(), sequential)
 }
 
-// cacheDigest is what the linearizability comparison looks at. The raft term is left out: a
-// heartbeat that differs from the cached region in its term only is accepted without
-// refreshing the cache, so which of two such heartbeats' terms ends up cached depends on
-// decisions taken before the other one was applied; both are legitimate (a term that goes
-// *back* is caught by the monotonicity trackers, which do look at it).
+// cacheDigest is what the comparison with the one-at-a-time orders looks at: id, range, version,
+// conf version and peer count of every served region. Leader and raft term are left out, and so
+// are the accept / refuse answers: processRegionHeartbeat decides what has changed against a
+// snapshot taken under the read lock and re-validates only staleness under the write lock, so a
+// heartbeat that differs from the cached region in its term only may or may not refresh the
+// cache depending on what it saw, and later same-epoch heartbeats are then refused or accepted
+// accordingly. Ranges and versions do not depend on that (staleness between different regions
+// is decided by the version alone), so the (range, version) content of the final cache is the
+// one of some one-at-a-time order; terms and epochs going *back* are caught by the monotonicity
+// trackers, which observe one consistent snapshot after every heartbeat.
 func (s *sys) cacheDigest() string {
 	var l []string
 	for _, r := range s.served() {
-		l = append(l, fmt.Sprintf("r%d[%q,%q)v%d.c%d.L%d.p%d", r.GetID(), r.GetStartKey(), r.GetEndKey(), r.GetRegionEpoch().GetVersion(), r.GetRegionEpoch().GetConfVer(), r.GetLeader().GetStoreId(), len(r.GetPeers())))
+		l = append(l, fmt.Sprintf("r%d[%q,%q)v%d.c%d.p%d", r.GetID(), r.GetStartKey(), r.GetEndKey(), r.GetRegionEpoch().GetVersion(), r.GetRegionEpoch().GetConfVer(), len(r.GetPeers())))
 	}
 	return strings.Join(l, " ")
 }
@@ -465,7 +485,8 @@ func sequentialOutcomes(streams [][]snap) map[string]bool {
 				err := s.rc.VerifProcessRegionHeartbeat(mkRegion(sn))
 				res[st] = append(res[st], err == nil)
 			}
-			out[fmt.Sprintf("%s | accepted=%v", s.cacheDigest(), res)] = true
+			_ = res
+			out[s.cacheDigest()] = true
 			s.close()
 			return
 		}
@@ -588,6 +609,11 @@ func concurrent(name string, hdepth, nstreams, per, pre int, tiers string, pick 
 				}
 				s := newSys()
 				var bad *hist.Violation
+				sched.OnPoint = func(t *sched.Thread) {
+					if bad == nil {
+						bad = s.sampleUnlocked("while thread " + t.Name + " was running")
+					}
+				}
 				results := make([][]bool, nstreams)
 				var names []string
 				var th []func()
@@ -598,7 +624,7 @@ func concurrent(name string, hdepth, nstreams, per, pre int, tiers string, pick 
 						for _, sn := range streams[st] {
 							err := s.rc.VerifProcessRegionHeartbeat(mkRegion(sn))
 							results[st] = append(results[st], err == nil)
-							if v := s.observeSnapshot("after " + sn.String()); v != nil && bad == nil {
+							if v := s.sampleUnlocked("after " + sn.String()); v != nil && bad == nil {
 								bad = v
 							}
 						}
@@ -606,22 +632,23 @@ func concurrent(name string, hdepth, nstreams, per, pre int, tiers string, pick 
 				}
 				return &explore.Instance{Names: names, Threads: th, Check: func(r *sched.Run) (string, *explore.Violation) {
 					defer s.close()
+					sched.OnPoint = nil
 					if bad == nil {
-						bad = s.observeSnapshot("at the end")
+						bad = s.sampleUnlocked("at the end")
 					}
 					if bad != nil {
 						return "", &explore.Violation{Key: bad.Key, Msg: "history {" + h.name + "}: " + bad.Msg}
 					}
-					got := fmt.Sprintf("%s | accepted=%v", s.cacheDigest(), results)
+					got := s.cacheDigest()
 					if !allowed[got] {
 						var l []string
 						for k := range allowed {
 							l = append(l, k)
 						}
 						sort.Strings(l)
-						return "", &explore.Violation{Key: "not-linearizable", Msg: fmt.Sprintf("history {%s}, streams %v: the concurrent outcome\n    %s\n  is not the outcome of any one-at-a-time order of the same heartbeats:\n    %s", h.name, streams, got, strings.Join(l, "\n    "))}
+						return "", &explore.Violation{Key: "final-cache-not-sequential", Msg: fmt.Sprintf("history {%s}, streams %v, answers %v: the regions served at the end\n    %s\n  are not what any one-at-a-time order of the same heartbeats leaves behind:\n    %s", h.name, streams, results, got, strings.Join(l, "\n    "))}
 					}
-					return got, nil
+					return fmt.Sprintf("%s | accepted=%v", got, results), nil
 				}}
 			}})
 		}
